@@ -293,6 +293,7 @@ Proof.
   - apply IH; cbn in Hj; lia.
 Qed.
 
+Opaque search_f.
 Lemma swi_getall_spec w L d off :
   8 <= w -> width_is w L -> digests_sorted L -> Forall (fun r => r_off r < two64) L ->
   N.of_nat (length L) < 2 ^ 69 ->
@@ -315,8 +316,8 @@ Proof.
   assert (H70 : n - 0 < 2 ^ N.of_nat 70).
   { change (N.of_nat 70) with 70. assert (2 ^ 69 < 2 ^ 70) by (apply N.pow_lt_mono_r; lia). lia. }
   destruct (search_f_spec f 70 0 n ltac:(lia) H70 Hmono) as (R1 & R2 & R3).
-  fold (sort_search n f) in R1, R2, R3.
-  set (idx := sort_search n f) in *.
+  unfold sort_search.
+  set (idx := search_f 70 f 0 n) in *.
   split.
   - intros Hin. destruct (scan_eq_sound b d _ idx off Hin) as (k & H1 & H2 & H3 & H4).
     rewrite Hcount in H2. fold n in H2.
@@ -355,7 +356,7 @@ Lemma mwi_load_nil rs :
   mwi_load rs [] = map (fun g => (fst g, compact (sort_by_digest (snd g)))) (group_by rec_width rs).
 Proof.
   unfold mwi_load. rewrite (fold_put_sorted (fun l => compact (sort_by_digest l))); [reflexivity|].
-  cbn [app]. apply kv_sorted_map. apply group_by_sorted.
+  cbn [app]. apply (kv_sorted_map (fun l => compact (sort_by_digest l))). apply group_by_sorted.
 Qed.
 
 Lemma with_key_in {A} (key : A -> N) k xs x : In x (with_key key k xs) <-> In x xs /\ key x = k.
@@ -367,7 +368,7 @@ Proof. induction l as [|x l IH]; cbn [filter length]; [lia|]. destruct (f x); cb
 Lemma mwi_getall_spec rs d off : recs_ok rs ->
   (In off (mwi_getall (mwi_load rs []) d) <-> exists r, In r rs /\ r_digest r = d /\ r_off r = off).
 Proof.
-  intros [Hoffs Hlen]. unfold mwi_getall. rewrite mwi_load_nil, kv_get_map, group_by_get.
+  intros [Hoffs Hlen]. unfold mwi_getall. rewrite mwi_load_nil, (kv_get_map (fun l => compact (sort_by_digest l))), group_by_get.
   set (w := blen d + 8).
   destruct (with_key rec_width w rs) as [|r0 l0] eqn:El; cbn [option_map].
   - split; [contradiction|]. intros (r & Hr & Hd & _).
@@ -394,14 +395,14 @@ Lemma mh_load_nil rs :
   mh_load rs [] = map (fun g => (fst g, mwi_load (snd g) [])) (group_by r_code rs).
 Proof.
   unfold mh_load. rewrite (fold_put_sorted (fun l => mwi_load l [])); [reflexivity|].
-  cbn [app]. apply kv_sorted_map. apply group_by_sorted.
+  cbn [app]. apply (kv_sorted_map (fun l => mwi_load l [])). apply group_by_sorted.
 Qed.
 
 Lemma mh_getall_spec rs code d off : recs_ok rs ->
   (In off (mh_getall (mh_load rs []) code d) <->
    exists r, In r rs /\ r_code r = code /\ r_digest r = d /\ r_off r = off).
 Proof.
-  intros [Hoffs Hlen]. unfold mh_getall. rewrite mh_load_nil, kv_get_map, group_by_get.
+  intros [Hoffs Hlen]. unfold mh_getall. rewrite mh_load_nil, (kv_get_map (fun l => mwi_load l [])), group_by_get.
   destruct (with_key r_code code rs) as [|r0 l0] eqn:El; cbn [option_map].
   - split; [contradiction|]. intros (r & Hr & Hc & _).
     assert (Hin : In r (with_key r_code code rs)) by (apply with_key_in; split; assumption).
@@ -531,7 +532,9 @@ Proof.
   - destruct fuel; [cbn in Hf; lia|]. cbn. rewrite app_nil_r. reflexivity.
   - destruct fuel as [|f]; [cbn in Hf; lia|]. cbn [mwcis_unmarshal].
     replace (N.of_nat (length (e :: es)) =? 0) with false by (cbn [length]; lia).
-    cbn [map concat]. unfold mh_entry_marshal at 1. rewrite <- !app_assoc.
+    cbn [map concat].
+    replace (mh_entry_marshal e) with (le_enc 8 (fst e) ++ mwi_marshal (snd e)) by reflexivity.
+    rewrite <- !app_assoc.
     destruct (Forall_inv Hok) as [Hc Hm].
     replace (blen (le_enc 8 (fst e) ++ mwi_marshal (snd e) ++ concat (map mh_entry_marshal es) ++ rest) <? 8)
       with false by (rewrite !blen_app, blen_le_enc8; lia).
@@ -565,16 +568,26 @@ Proof.
   pose proof (mh_entry_len b) as H. unfold blen in H. lia.
 Qed.
 
+Lemma mh_unmarshal_count n tail : n < two31 ->
+  mh_unmarshal (le_enc 4 n ++ tail) = mwcis_unmarshal (S (length (le_enc 4 n ++ tail))) n tail [].
+Proof.
+  intros Hn. unfold mh_unmarshal.
+  replace (blen (le_enc 4 n ++ tail) <? 4) with false by (rewrite blen_app, blen_le_enc4; lia).
+  rewrite le4_roundtrip by (unfold two31, two32 in *; lia).
+  replace (two31 <=? n) with false by lia.
+  assert (D4 : drop 4 (le_enc 4 n ++ tail) = tail) by (rewrite <- (blen_le_enc4 n) at 1; apply drop_app).
+  rewrite D4. reflexivity.
+Qed.
+
+Lemma mh_marshal_entries (m : mhidx) :
+  mh_marshal m = le_enc 4 (N.of_nat (length m)) ++ concat (map mh_entry_marshal m).
+Proof. reflexivity. Qed.
+
 Lemma mh_roundtrip m rest : mh_ok m -> mh_unmarshal (mh_marshal m ++ rest) = Ok (m, rest).
 Proof.
-  intros (Hs & Hok & Hn). unfold mh_unmarshal, mh_marshal. fold mh_entry_marshal. rewrite <- app_assoc.
-  replace (blen (le_enc 4 (N.of_nat (length m)) ++ concat (map mh_entry_marshal m) ++ rest) <? 4) with false
-    by (rewrite !blen_app, blen_le_enc4; lia).
-  rewrite le4_roundtrip by (unfold two31, two32 in *; lia).
-  replace (two31 <=? N.of_nat (length m)) with false by lia.
-  assert (D4 : drop 4 (le_enc 4 (N.of_nat (length m)) ++ concat (map mh_entry_marshal m) ++ rest) = concat (map mh_entry_marshal m) ++ rest)
-    by (rewrite <- (blen_le_enc4 (N.of_nat (length m))) at 1; apply drop_app).
-  rewrite D4. apply (mwcis_roundtrip m []); [exact Hok|exact Hs|].
+  intros (Hs & Hok & Hn). rewrite mh_marshal_entries, <- app_assoc.
+  rewrite mh_unmarshal_count by exact Hn.
+  apply (mwcis_roundtrip m []); [exact Hok|exact Hs|].
   rewrite !app_length. pose proof (concat_mh_len m). lia.
 Qed.
 
@@ -604,7 +617,8 @@ Proof.
   assert (H : forall (m : list (N * list A)), (length (fold_left (fun m x => kv_snoc (key x) x m) xs m) <= length m + length xs)%nat).
   { induction xs as [|x xs IH]; intros m; cbn [fold_left length]; [lia|].
     specialize (IH (kv_snoc (key x) x m)). unfold kv_snoc in *.
-    destruct (kv_get (key x) m); pose proof (kv_put_length (key x) (l ++ [x]) m); pose proof (kv_put_length (key x) [x] m); lia. }
+    destruct (kv_get (key x) m) as [l|];
+      [pose proof (kv_put_length (key x) (l ++ [x]) m)|pose proof (kv_put_length (key x) [x] m)]; lia. }
   specialize (H []). cbn [length] in H. lia.
 Qed.
 
@@ -623,7 +637,7 @@ Definition recs_mok (rs : list irec) : Prop :=
 Lemma mwi_load_ok rs : recs_mok rs -> blen (mwi_marshal (mwi_load rs [])) < two63 -> mwi_ok (mwi_load rs []).
 Proof.
   intros [Hall Hn] Hsz. pose proof (mwi_load_nil rs) as E. repeat split.
-  - rewrite E. apply kv_sorted_map. apply group_by_sorted.
+  - rewrite E. apply (kv_sorted_map (fun l => compact (sort_by_digest l))). apply group_by_sorted.
   - rewrite Forall_forall. intros b Hb. split.
     + rewrite E in Hb. apply in_map_iff in Hb. destruct Hb as (g & <- & Hg). cbn [fst].
       destruct (group_by_in rec_width rs g Hg) as [Hs Hne].
@@ -653,15 +667,15 @@ Qed.
 Lemma mh_load_ok rs : recs_mok rs -> blen (mh_marshal (mh_load rs [])) < two63 -> mh_ok (mh_load rs []).
 Proof.
   intros Hok Hsz. pose proof (mh_load_nil rs) as E. repeat split.
-  - rewrite E. apply kv_sorted_map. apply group_by_sorted.
+  - rewrite E. apply (kv_sorted_map (fun l => mwi_load l [])). apply group_by_sorted.
   - rewrite Forall_forall. intros e He.
-    pose proof (mh_in_marshal_len _ e He) as Hl. unfold mh_marshal in Hsz. fold mh_entry_marshal in Hsz. rewrite blen_app in Hsz.
+    pose proof (mh_in_marshal_len _ e He) as Hl. rewrite mh_marshal_entries, blen_app in Hsz.
     rewrite E in He. apply in_map_iff in He. destruct He as (g & <- & Hg). cbn [fst snd] in *.
     destruct (group_by_in r_code rs g Hg) as [Hs Hne]. split.
     + destruct (snd g) as [|r l] eqn:Eg; [congruence|].
       assert (Hr : In r (with_key r_code (fst g) rs)) by (rewrite <- Hs; left; reflexivity).
       apply with_key_in in Hr. destruct Hr as [Hr Hw]. destruct Hok as [Hall _]. rewrite Forall_forall in Hall.
-      specialize (Hall r Hr). lia.
+      destruct (Hall r Hr) as (_ & Hcode & _). rewrite <- Hw. exact Hcode.
     + apply mwi_load_ok; [rewrite Hs; apply recs_mok_with_key; exact Hok|lia].
   - destruct Hok as [_ Hn]. rewrite E, map_length. pose proof (group_by_length r_code rs). lia.
 Qed.
